@@ -236,13 +236,40 @@ def rule_permissive(prog):
                         false_t = [tb for v, tb in tt["ts"] if v == 0] or ([tt["o"]] if any(v == 1 for v, _ in tt["ts"]) else [])
                         if false_t and bi not in g.reach_from(false_t[0], avoid=[nb2, pb] + nexts):
                             ok = True
+                if not ok:
+                    # ... or on the release of a key whose press was seen while waiting: the decision is dominated by a
+                    # `contains` test on a list that is only pushed to on the press edge
+                    from kq.gf2 import root_desc as _rd
+
+                    def press_only(blk):
+                        for (pb, pt) in isp:
+                            nb2 = pt["t"]
+                            tt = g.term(nb2) if nb2 is not None else None
+                            if tt and tt["k"] == "switch" and g.dominates(pb, blk):
+                                false_t = [tb for v, tb in tt["ts"] if v == 0] or ([tt["o"]] if any(v == 1 for v, _ in tt["ts"]) else [])
+                                if false_t and blk not in g.reach_from(false_t[0], avoid=[nb2, pb] + nexts):
+                                    return True
+                        return False
+                    for cb, ct in g.calls():
+                        if (callee_name(ct) or "").split("::")[-1] != "contains" or not g.dominates(cb, bi) or not ct["args"]:
+                            continue
+                        lst = (_rd(g, ct["args"][0]) or "").split(".")[0].split("[")[0]
+                        pushes = [pb_ for pb_, pt_ in g.calls() if (callee_name(pt_) or "").split("::")[-1] == "push" and pt_["args"]
+                                  and (_rd(g, pt_["args"][0]) or "").split(".")[0].split("[")[0] == lst]
+                        nxt_c = ct.get("t")
+                        tc = g.term(nxt_c) if nxt_c is not None else None
+                        taken = tc is not None and tc["k"] == "switch" and bi not in g.reach_from(
+                            ([tb for v, tb in tc["ts"] if v == 0] or [tc["o"]])[0], avoid=[nxt_c, cb] + nexts)
+                        if lst and pushes and all(press_only(pb_) for pb_ in pushes) and taken:
+                            ok = True
                 key = "%s/decision-%s-on-press-only" % (g.norm.split("custom_tap_hold::")[-1], rv["v"])
                 res.inst(key, ok=ok)
                 res.oblige(ok)
                 if not ok:
                     res.viol(key, "%s:%s" % (g.file, st.get("ln")),
                              "the closure decides WaitingAction::%s while scanning the queue without having checked that the event is "
-                             "a press: the release of a key that was already down triggers the early decision" % rv["v"])
+                             "a press (or the release of a key whose press it saw while waiting): the release of a key that was already "
+                             "down triggers the early decision" % rv["v"])
     res.inst("custom-closures", n=n_custom)
     if n_custom == 0:
         res.viol("custom-closures", "parser/src/cfg/custom_tap_hold.rs", "no tap-hold-release-keys style closure with a press loop and a release search was found")
@@ -439,3 +466,82 @@ def rule_slot_index(prog):
                          "0.. for extra_waiting) use `idx < 0`. Entry 0 of extra_waiting is then handled as the main slot: the key waiting "
                          "there is dropped without an outcome and the decided key fires again later" % (name, rv["op"], const_val(rv["b"])))
     return res
+
+
+def rule_scan_order(prog):
+    """R-WAIT-SCAN (C05): the custom tap-hold closures decide on the first deciding event in the order of the queue.
+
+    (a) tap-hold-except-keys: "a listed key pressed while waiting triggers the tap" holds for *every* press, so the scan
+        over the queued events is only left early by the Tap decision - never by a bare `return (None, ..)` at the first
+        press of some other key, after which a listed key pressed next is no longer seen.
+    (b) tap-hold-release-keys: the closure takes the events one by one; it does not decide a press by searching a clone
+        of the iterator for that key's release *before* it has looked at the presses in between (a listed key pressed
+        before the other key's release must win)."""
+    from kq.analysis import discr_switches
+    from rules.r_loopvar import loops_of
+    res = RuleResult("R-WAIT-SCAN", "custom tap-hold closures scan the queued events in order and only stop at a decision", floor=2)
+    WA_ = "kanata_keyberon::layout::WaitingAction"
+    n = 0
+    for g in sorted(prog.fns.values(), key=lambda x: x.norm):
+        if not (g.norm.startswith("kanata_parser::cfg::custom_tap_hold::") and g.parent):
+            continue
+        if not any("layout::QueuedIter" in (g.local_ty(i) or "") for i in range(1, g.nargs + 1)):
+            continue
+        name = g.norm.split("custom_tap_hold::")[-1].split("::{")[0]
+        res.fn(g)
+        for lp in loops_of(g):
+            drivers = [b for b in lp.body if g.term(b)["k"] == "call" and (callee_name(g.term(b)) or "").endswith("::next")
+                       and all(g.dominates(b, l_) for l_ in lp.latches)]
+            if not drivers:
+                continue
+            n += 1
+            # exits of the loop other than "iterator exhausted" (the None edge right after next())
+            drv = drivers[0]
+            bad_exits, clones = [], []
+            for b in sorted(lp.body):
+                for s_ in g.succs(b):
+                    if s_ in lp.body or g.is_cleanup(s_):
+                        continue
+                    if b == drv or (g.term(b)["k"] == "switch" and drv in g.preds(b)) or _is_after_next(g, drv, b):
+                        continue          # the iterator is exhausted
+                    # leaving with a decision: every way from here to the return builds a WaitingAction on its way
+                    agg_blocks = {y for y in g.reachable() for st in g.stmts(y)
+                                  if st["k"] == "assign" and st["rv"]["k"] == "agg" and st["rv"].get("adt") == WA_}
+                    rets = set(g.return_blocks())
+                    decides = s_ in agg_blocks or not (rets & g.reach_from(s_, avoid=list(agg_blocks) + [lp.h]))
+                    if not decides:
+                        bad_exits.append(g.line_of(b))
+                t = g.term(b)
+                if t["k"] == "call" and (callee_name(t) or "").split("::")[-1] == "clone" and t["args"] and \
+                        "QueuedIter" in (g.local_ty(t["args"][0]["l"]) or "").replace("&", ""):
+                    clones.append(t.get("ln"))
+            ok = not bad_exits and not clones
+            res.inst("%s/scan" % name, where="%s:%s" % (g.file, g.line_of(lp.h)), exits_without_decision=bad_exits, lookahead_clones=clones, ok=ok)
+            res.oblige(ok)
+            if bad_exits:
+                res.viol("%s/scan/stops-without-decision" % name, "%s:%s" % (g.file, bad_exits[0]),
+                         "the decision closure of %s leaves its scan of the queued events at line %s without a decision: presses that come "
+                         "after that point are never looked at - a listed key pressed after a key that is not listed no longer triggers "
+                         "the early tap and is typed with the hold action applied" % (name, bad_exits[0]))
+            if clones:
+                res.viol("%s/scan/lookahead" % name, "%s:%s" % (g.file, clones[0]),
+                         "the decision closure of %s searches a clone of the queue iterator (line %s) for the release that belongs to the "
+                         "press it is looking at, before it has looked at the presses in between: when several events are evaluated at "
+                         "once (the key waited behind another decision, two events in one millisecond) a listed key pressed before that "
+                         "release is missed" % (name, clones[0]))
+    if n < 2:
+        res.viol("anchor", "parser/src/cfg/custom_tap_hold.rs", "the scan loops of the custom tap-hold closures were not found (%d)" % n)
+    return res
+
+
+def _is_after_next(g, drv, b):
+    """b is the switch on the Option returned by the driver `next` call (possibly through one copy block)"""
+    cur = g.term(drv).get("t")
+    for _ in range(3):
+        if cur is None:
+            return False
+        if cur == b:
+            return True
+        ss = g.succs(cur)
+        cur = ss[0] if len(ss) == 1 else None
+    return False
